@@ -13,7 +13,7 @@ func CompileToGetDecoder(typ *runtime.Type) (Decoder, error) {
 	initDecoder()
 	typeptr := uintptr(unsafe.Pointer(typ))
 	verifCacheGate("lookup", typeptr)
-	if typeptr > typeAddr.MaxTypeAddr {
+	if typeptr > typeAddr.MaxTypeAddr || typeptr < typeAddr.BaseTypeAddr {
 		return compileToGetDecoderSlowPath(typeptr, typ)
 	}
 
